@@ -647,3 +647,67 @@ def variants(world, tier="quick", only=None):
     if only:
         out = [v for v in out if any(o in v.name for o in only)]
     return out
+
+
+class MssEntryVariant(Variant):
+    """MSSubstituter.substitute(formula, subs, interpretations): the entry point of the most-specific strategy hands all three
+    arguments to the common entry point (argument checks + walk: SubstituteArgsVariant) and returns its result."""
+    prop_ids = ("C05",)
+    qualname = "pysmt.substituter.MSSubstituter.substitute"
+    name = "mss:substitute-forwards-its-arguments"
+
+    def __init__(self, world):
+        self.world = world
+
+    def setup(self, ex):
+        W = self.world
+        env = core.make_env(ex, W)
+        self.f = z3.Const("formula", Node)
+        W.touch(ex, self.f)
+        self.subs = DictVal([[z3.Const("key", Node), z3.Const("value", Node)]])
+        self.interp = DictVal([[z3.Const("function_symbol", Node), Obj(FI, {}, tag="interpretation")]])
+        self.calls = []
+        v = self
+
+        class Common(Contract):
+            qualname = "pysmt.substituter.Substituter.substitute"
+
+            def apply(self, exx, a, kw):
+                names = ["self", "formula", "subs", "interpretations"]
+                vals = dict(zip(names, a))
+                vals.update(kw)
+                v.calls.append(vals)
+                r = exx.fresh("substituted", Node)
+                W.touch(exx, r)
+                v.result = r
+                return r
+        c = Common()
+        c.world = W
+        W.contracts[c.qualname] = c
+        self.w = make_walker(ex, W, "pysmt.substituter.MSSubstituter", env)
+        fi = W.repo.func(self.qualname)
+        return W.wrap_func(fi, fi.module, bound=self.w), [self.f], {"subs": self.subs, "interpretations": self.interp}
+
+    def check(self, ex, outcome):
+        kind, r = outcome
+        if kind == "raise":
+            return [("no-exception", z3.BoolVal(False))]
+        goals = [("common-entry-point-called-once", z3.BoolVal(len(self.calls) == 1))]
+        if len(self.calls) == 1:
+            c = self.calls[0]
+            goals += [("same-walker", z3.BoolVal(c.get("self") is self.w)),
+                      ("formula-forwarded", (c.get("formula") == self.f) if is_node(c.get("formula")) else z3.BoolVal(False)),
+                      ("substitutions-forwarded", z3.BoolVal(c.get("subs") is self.subs)),
+                      ("interpretations-forwarded", z3.BoolVal(c.get("interpretations") is self.interp)),
+                      ("result-returned", (r == self.result) if is_node(r) else z3.BoolVal(False))]
+        return goals
+
+
+_base_variants5b = variants
+
+
+def variants(world, tier="quick", only=None):
+    out = _base_variants5b(world, tier, None) + [MssEntryVariant(world)]
+    if only:
+        out = [v for v in out if any(o in v.name for o in only)]
+    return out
